@@ -252,7 +252,24 @@ def runProj (s : ProjEncSt) : List String → List String → String
       match (tokBody t).splitOn ":" with
       | [_, _, _, obs] =>
         match adoptMs s.ms obs with
-        | some m => let s' := { s with ms := m }; runProj s' ts (s!"enc/{msEncSnap s'.ms}" :: acc)
+        | some m =>
+          let s' := { s with ms := m }
+          -- monitored part of `MsInv`: per-stream ranges, one application, no stream ahead of the first one
+          -- (the multistream layer rewrites per-stream bitrate / bandwidth / forced mode / force_channels
+          --  through opus_encoder_ctl, so these are checked against their legal ranges, not for equality)
+          let rangeBad := m.streams.any (fun e =>
+            (obsRange e (encObserve e)).isSome ||
+            !(decide (e.forceChannels = OPUS_AUTO ∨ (1 ≤ e.forceChannels ∧ e.forceChannels ≤ e.channels))) ||
+            !(decide (e.userBitrate = OPUS_AUTO ∨ e.userBitrate = OPUS_BITRATE_MAX ∨
+                      (500 ≤ e.userBitrate ∧ e.userBitrate ≤ 300000 * e.channels))) ||
+            !(decide (e.userBandwidth = OPUS_AUTO ∨ (BW_NB ≤ e.userBandwidth ∧ e.userBandwidth ≤ BW_FB))) ||
+            !(decide (e.userForcedMode = OPUS_AUTO ∨ (MODE_SILK_ONLY ≤ e.userForcedMode ∧ e.userForcedMode ≤ MODE_CELT_ONLY))))
+          let headFirst := match m.streams with | e0 :: _ => e0.first | [] => true
+          let firstBad := headFirst && m.streams.any (fun e => !e.first)
+          let appBad := match m.streams with | e0 :: es => es.any (fun e => e.application ≠ e0.application) | [] => false
+          let tag := if rangeBad then "CONTRACT(ms-range)" else if firstBad then "CONTRACT(ms-first)"
+                     else if appBad then "CONTRACT(ms-application)" else "enc"
+          runProj s' ts (s!"{tag}/{msEncSnap s'.ms}" :: acc)
         | none => "bad-op"
       | _ => "bad-op"
     else match parseProjReq t with
